@@ -10,7 +10,7 @@
    covered by the differential run only (docs/C03.md). *)
 From Coq Require Import String List Bool.
 From CBI Require Import Lib.Data Lib.Res Model.C03tok Model.C03 Model.C03run Spec.C03.
-From CBI Require Import Proofs.C03w Proofs.C03d Proofs.C03o Proofs.C03s Proofs.C03j Proofs.C03f Proofs.C03g.
+From CBI Require Import Proofs.C03w Proofs.C03d Proofs.C03o Proofs.C03s Proofs.C03j Proofs.C03f Proofs.C03g Proofs.C03h.
 From CBI Require Gen.C03_tables.
 Import ListNotations.
 Local Open Scope string_scope.
@@ -78,10 +78,11 @@ Print Assumptions C03_objlike.
 (* PARTIAL.  Tables that mix object-like macros and function-like macros of fixed
    arity >= 1 whose replacement lists contain no #, no ##, no `defined`, no
    __VA_ARGS__ and no function-like macro name (object-like names are allowed
-   everywhere), built by `#define` lines; source lists made of plain tokens and
-   of invocations F ( a1 , ... , an ) with the right number of arguments, each
-   argument a flat list of tokens without parentheses and commas that may
-   contain object-like macro names (e.g. `#if GE(VERSION, 3)`).
+   everywhere), built by `#define` lines; source lists made of plain parts
+   (tokens, `defined X`, `defined ( X )`) and of invocations F ( a1 , ... , an )
+   with the right number of arguments, each argument a flat list of tokens
+   without parentheses and commas that may contain object-like macro names
+   (e.g. `#if defined(V) && GE(V, 3)`).
    For every such table and source: expansion terminates (every fuel above a
    bound), never reaches the backstop, and equals Prosser's result token for
    token - through argument collection, complete pre-expansion of the arguments
@@ -93,7 +94,7 @@ Print Assumptions C03_objlike.
 Theorem C03_funlike_partial :
   forall (fs : list fdef) (items : list sitem),
     wf_fdefs fs = true -> params_plain fs = true -> fs <> [] ->
-    Forall (wf_src2 fs) items ->
+    Forall (wf_src3 fs) items ->
     S (S (List.length fs)) < Gen.C03_tables.max_level ->
     exists tb, build_table 0 (map define_line2 fs) [] = inl tb /\
     exists n, forall fuel, n <= fuel ->
@@ -103,7 +104,7 @@ Theorem C03_funlike_partial :
         run_spec fuel (stable2 fs) (map btok_of (flat_map stoks items)) = Ok (map sp out).
 Proof.
   intros fs items Hwf Hpp Hne Hitems Hlev. exists (mtable2 fs). split; [exact (build2 fs Hwf Hpp)|].
-  exact (funlike2_main fs Hwf _ _ _ _ _ _ _ items Hitems Hne Hlev).
+  exact (funlike3_main fs Hwf _ _ _ _ _ _ _ items Hitems Hne Hlev).
 Qed.
 Print Assumptions C03_funlike_partial.
 
@@ -176,25 +177,28 @@ Proof.
   split; [apply PeanoNat.Nat.ltb_lt; vm_compute; reflexivity|vm_compute; reflexivity].
 Qed.
 
-(* #define N 2 / #define M N + M / #define GE(a,b) ((a) > N || (b) >= a) ;  source  GE(M 1, q) + N
-   (the first argument contains a self-referential object-like macro) *)
+(* #define N 2 / #define M N + M / #define GE(a,b) ((a) > N || (b) >= a) ;
+   source  defined(N) && GE(M 1, q) + N   (the first argument contains a self-referential object-like macro) *)
 Example C03_nonvacuous_funlike :
   let fs := [FObj "N" [tN "2"]; FObj "M" [tI "N"; tOw "+"; tIw "M"];
              FFun "GE" ["a"; "b"] [tP "("; tP "("; tI "a"; tP ")"; tOw ">"; tIw "N"; tOw "||"; tPw "("; tI "b"; tP ")";
                                    tOw ">="; tIw "a"; tP ")"]] in
-  let items := [SCall (tI "GE") (tP "(") [tI "M"; tNw "1"] [(tP ",", [tIw "q"])] (tP ")"); SToks [tOw "+"; tIw "N"]] in
-  wf_fdefs fs = true /\ params_plain fs = true /\ Forall (wf_src2 fs) items /\
+  let items := [SToks [tI "defined"; tP "("; tI "N"; tP ")"; tOw "&&"];
+                SCall (tIw "GE") (tP "(") [tI "M"; tNw "1"] [(tP ",", [tIw "q"])] (tP ")"); SToks [tOw "+"; tIw "N"]] in
+  wf_fdefs fs = true /\ params_plain fs = true /\ Forall (wf_src3 fs) items /\
   run_spec 80 (stable2 fs) (map btok_of (flat_map stoks items))
-  = Ok [(KPunct, "("); (KPunct, "("); (KNum, "2"); (KOp, "+"); (KId, "M"); (KNum, "1"); (KPunct, ")"); (KOp, ">"); (KNum, "2");
+  = Ok [(KNum, "1"); (KOp, "&&");
+        (KPunct, "("); (KPunct, "("); (KNum, "2"); (KOp, "+"); (KId, "M"); (KNum, "1"); (KPunct, ")"); (KOp, ">"); (KNum, "2");
         (KOp, "||"); (KPunct, "("); (KId, "q"); (KPunct, ")"); (KOp, ">="); (KNum, "2"); (KOp, "+"); (KId, "M"); (KNum, "1");
         (KPunct, ")"); (KOp, "+"); (KNum, "2")].
 Proof.
   cbv zeta. split; [vm_compute; reflexivity|]. split; [vm_compute; reflexivity|]. split.
-  - constructor; [|constructor; [|constructor]].
+  - constructor; [|constructor; [|constructor; [|constructor]]].
+    + vm_compute. reflexivity.
     + split; [vm_compute; reflexivity|]. repeat split; try (vm_compute; reflexivity).
       * constructor; [|constructor]. split; vm_compute; reflexivity.
       * eexists; eexists; eexists. split; vm_compute; reflexivity.
-    + split; vm_compute; reflexivity.
+    + vm_compute. reflexivity.
   - vm_compute. reflexivity.
 Qed.
 
